@@ -207,6 +207,37 @@ F32LitCases ==
                <<3, 5>> \o [i \in 1..37 |-> 0], [i \in 1..39 |-> 9], <<1>> \o [i \in 1..39 |-> 0]}
   IN {[neg |-> n, digits |-> d] : n \in BOOLEAN, d \in around \cup more}
 
+(* IEEE-754 arithmetic on INTEGER-VALUED operands - the slice of "arithmetic at that width" that integers decide: *)
+(* binary64 represents every integer below 2^53 exactly; binary32 has a 24-bit significand, so an exact integer     *)
+(* result r with |r| >= 2^24 is rounded to the nearest multiple of 2^(bits(r) - 24), ties to the even multiple.     *)
+(* An operation carried out at the wrong width (Float32 in binary64 or the reverse) differs exactly there.          *)
+IAbs(x) == IF x < 0 THEN -x ELSE x
+BitLen(a) == CHOOSE k \in 0..31 : a < 2 ^ k /\ (k = 0 \/ a >= 2 ^ (k - 1))
+F32Round(n) ==
+  LET a == IAbs(n) IN
+  IF a < 2 ^ 24 THEN n
+  ELSE LET step == 2 ^ (BitLen(a) - 24)
+           q == a \div step
+           rem == a % step
+           up == rem * 2 > step \/ (rem * 2 = step /\ q % 2 = 1)
+           r == (IF up THEN q + 1 ELSE q) * step
+       IN IF n < 0 THEN -r ELSE r
+FloatInts == {0, 1, 2, 3, 7, 4097, 8191, 16777215, 16777216, 16777218, 16777220, 33554430, 33554432, 50331648, 268435456,
+              -1, -3, -4097, -16777215, -16777216, -16777218, -33554432}
+FloatIntOps == {"add", "sub", "mul"}
+Exact(op, x, y) == CASE op = "add" -> x + y [] op = "sub" -> x - y [] op = "mul" -> x * y
+\* TLC's integers are 32-bit: only rows whose exact result stays below 2^30 (mul: operands below 2^15)
+ArgsOk(op, x, y) == IF op = "mul" THEN IAbs(x) < 32768 /\ IAbs(y) < 32768 ELSE IAbs(x) < 2 ^ 29 /\ IAbs(y) < 2 ^ 29
+FloatIntRows(w) == {[k |-> "farith", w |-> w, op |-> t[1], x |-> t[2], y |-> t[3],
+                     r |-> IF w = 32 THEN F32Round(Exact(t[1], t[2], t[3])) ELSE Exact(t[1], t[2], t[3])] :
+                    t \in {u \in FloatIntOps \X FloatInts \X FloatInts : ArgsOk(u[1], u[2], u[3])}}
+FloatIntOk(r) == TRUE
+\* rounding laws TLC checks: idempotent, monotone, exact below 2^24, error at most half a step
+F32RoundLaws == \A n \in {16777215, 16777216, 16777217, 16777218, 16777219, 33554431, 33554433, 33554434, 50331649, 100000001, -16777217, -33554435} :
+                  /\ F32Round(F32Round(n)) = F32Round(n)
+                  /\ IAbs(F32Round(n) - n) * 2 <= 2 ^ (BitLen(IAbs(n)) - 24)
+                  /\ F32Round(n + 1) >= F32Round(n)
+
 (* IEEE comparison on special values: class, sign, rank of the magnitude *)
 FloatVals == {[n |-> "pzero", c |-> "num", neg |-> FALSE, r |-> 0], [n |-> "nzero", c |-> "num", neg |-> TRUE, r |-> 0],
               [n |-> "psub", c |-> "num", neg |-> FALSE, r |-> 1], [n |-> "nsub", c |-> "num", neg |-> TRUE, r |-> 1],
@@ -237,8 +268,9 @@ Next ==
             ELSE row.i < Len(F32Consts[row.name].d) /\ row' = HornerStep(row)
        [] grp.k = "f32lit" -> \E c \in F32LitCases :
             row' = [k |-> "f32lit", neg |-> c.neg, digits |-> c.digits, accept |-> F32Finite(c.digits)]
-       [] grp.k = "flt" -> \E x \in FloatVals, y \in FloatVals, op \in BranchOps :
-            row' = [k |-> "flt", w |-> grp.w, op |-> op, x |-> x.n, y |-> y.n, first |-> FloatRel(op, x, y)]
+       [] grp.k = "flt" -> \/ \E x \in FloatVals, y \in FloatVals, op \in BranchOps :
+                                row' = [k |-> "flt", w |-> grp.w, op |-> op, x |-> x.n, y |-> y.n, first |-> FloatRel(op, x, y)]
+                           \/ \E r \in {q \in FloatIntRows(grp.w) : FloatIntOk(q)} : row' = r
 Spec == Init /\ [][Next]_vars
 
 Report == (row # NoRow /\ row.k \notin {"laws-done", "acc"}) => PrintT(<<"REPLAY", ToJson(row)>>)
@@ -277,5 +309,5 @@ InRange8 == \A v \in -300..300 :
 ToDecimal8 == \A x \in 0..255 : ToDecimal(FALSE, ToBv(x, 8)).digits = NatDigits(x)
                                 /\ ToDecimal(TRUE, ToBv(x, 8)).digits = NatDigits(Abs(SignedVal(x, 8)))
 LawsHold == (Task = "laws" /\ row.k = "laws-done") =>
-   /\ MathAll(4) /\ MathAll(5) /\ MathFast8 /\ Laws8 /\ MinOverMinusOne /\ InRange8 /\ ToDecimal8
+   /\ MathAll(4) /\ MathAll(5) /\ MathFast8 /\ Laws8 /\ MinOverMinusOne /\ InRange8 /\ ToDecimal8 /\ F32RoundLaws
 =============================================================================
